@@ -993,7 +993,28 @@ func (a *analysis) oracleC13() verdict {
 	}
 	sc, rr := a.sc, a.rr
 	if a.errCycle || sc.OutFailAt > 0 {
-		return inconclusive("render error in scenario")
+		// after a failed render cycle nothing is written any more, so a Write that
+		// begins after it cannot keep the promise a reported success makes
+		var tErr int64
+		for _, h := range a.hooks() {
+			if h.P == hpRenderEnd && h.B != 0 && tErr == 0 {
+				tErr = h.T
+			}
+		}
+		n := 0
+		for _, o := range a.hist() {
+			if o.Op.K != "write" || o.Skipped || o.Ret == 0 || tErr == 0 || o.Inv < tErr {
+				continue
+			}
+			n++
+			if strings.HasSuffix(o.Res, ",<nil>") && !strings.HasPrefix(o.Res, "0,") {
+				return a.fv("write-accepted-after-error", "Write invoked at t=%d, after the render cycle that failed (t=%d), reported success (%s): no frame is written after a render error, its text can never appear", o.Inv, tErr, o.Res)
+			}
+		}
+		if n == 0 {
+			return inconclusive("render error in scenario, no Write began after it")
+		}
+		return held(true)
 	}
 	tw := rr.tWaitRet.Load()
 	// stream of text lines in output order
